@@ -262,7 +262,7 @@ def h_scoped(n: int, k0: int, k1: int, k2: int, k3: int, a0: int, a1: int, a2: i
     served = 0
     for rs in res_s:
         served += len(rs[1]) if type(rs) is tuple else len(rs)
-    nt = len(items) >= 2 and (served >= 1 or cancelled)
+    nt = len(items) >= 2 and (served >= 1 or cancelled or st.pos >= 1)
     return finish(ok, nt, ("scoped", len(items), tuple(p[0] for p in progs), depth, exitkind, cancelled))
 
 
@@ -302,7 +302,7 @@ def jobs(tier):
         for fl in ("agen", "acls"):
             add(N=N, LP=1, apps=12, D=3, EX=1, fix={"depth": depth, "n": N}, fl=fl)
     # sync iterables under scoped_iter (their helper iterator must be protected as well)
-    for fl in ("iter", "seq", "list"):
+    for fl in ("iter", "seq", "llist"):
         for a0 in (1, 3, 5):
             add(N=N, LP=2, apps=4, D=2, EX=0, J=(1, 2), fix={"a0": a0, "n": N, "d1": 0}, fl=fl)
     # D: cancellation at every suspension point (sources suspend once per pull), depth 1..2
@@ -322,7 +322,7 @@ BOUNDS = {
     "thorough": "3 applications, N<=3, class-based sources",
 }
 OUTSIDE = ["more than 3 applications per block", "nesting deeper than 3", "concurrent use of the scoped handle"]
-NONTRIVIAL_RULE = ">=2 items and >=1 item served to an application (or a delivered cancellation) on the path"
+NONTRIVIAL_RULE = ">=2 items and >=1 item served to / consumed by an application (or a delivered cancellation) on the path"
 
 MANIFEST = {
     "text": 'Block programs (tools by symbolic selector, items taken, closed/abandoned/exhausted), nesting depth 1..3, exit by fall-through / exception / cancellation; compared with the same program over one shared sync iterator; underlying closed exactly once after the outermost exit, dead handles probed with __anext__/asend/athrow. Nothing is claimed outside the bounds listed in the evidence file.',
